@@ -40,10 +40,6 @@ theorem cunion_self {c : List String} (h : Sorted c) : cunion c c = c := OH.Prop
 
 /-! ### one rule on one day -/
 
-/-- a schedule all of whose ranges carry exactly the comments `c` and the kind `k` -/
-def Uniform (k : Kind) (c : List String) (s : Schedule) : Prop :=
-  ∀ t ∈ s, t.comments = c ∧ t.kind = k
-
 theorem fromRanges_kind (rs : List (Nat × Nat)) (k : Kind) (c : List String) :
     ∀ t ∈ fromRanges rs k c, t.kind = k := by
   intro t ht
@@ -55,10 +51,6 @@ theorem fromRanges_kind (rs : List (Nat × Nat)) (k : Kind) (c : List String) :
   split at h1
   · exact (Option.some.inj h1).symm
   · cases h1
-
-theorem fromRanges_uniform (rs : List (Nat × Nat)) (k : Kind) (c : List String) (hc : Sorted c) :
-    Uniform k c (fromRanges rs k c) :=
-  fun t ht => ⟨fromRanges_comments rs k c (cunion_self hc) t ht, fromRanges_kind rs k c t ht⟩
 
 /-- the kinds of `a.addition(b)` are kinds of `a` or of `b` -/
 theorem addition_kind (a b : Schedule) (ha : WF a) (hb : WF b) (k : Kind)
@@ -79,20 +71,24 @@ theorem addition_kind (a b : Schedule) (ha : WF a) (hb : WF b) (k : Kind)
     obtain ⟨u, hu, _, _, e⟩ := stateAt_eq_some a t.s t.kind (by simpa using h1)
     rw [← e]; exact ka u hu
 
-theorem addition_uniform (a b : Schedule) (ha : WF a) (hb : WF b) (k : Kind) (c : List String)
-    (hc : Sorted c) (ua : Uniform k c a) (ub : Uniform k c b) : Uniform k c (addition a b) := by
-  intro t ht
-  refine ⟨?_, addition_kind a b ha hb k (fun t ht => (ua t ht).2) (fun t ht => (ub t ht).2) t ht⟩
-  exact addition_G (fun x => x = c) (fun x y hx hy => by rw [hx, hy]; exact cunion_self hc) a b
-    (fun t ht => (ua t ht).1) (fun t ht => (ub t ht).1) t ht
+/-- every range carries exactly the comments `c` -/
+def AllComments (c : List String) (s : Schedule) : Prop := ∀ t ∈ s, t.comments = c
+
+theorem addition_allComments (a b : Schedule) (c : List String) (hc : Sorted c)
+    (ua : AllComments c a) (ub : AllComments c b) : AllComments c (addition a b) :=
+  addition_G (fun x => x = c) (fun x y hx hy => by rw [hx, hy]; exact cunion_self hc) a b ua ub
 
 /-- WHAT ONE RULE CONTRIBUTES.  If `rule_sequence_schedule_at` returns a schedule for rule `r` on day
-`d`, then `r` applies on `d` or on `d − 1`, the schedule is well-formed and coalesced, and every range
-carries exactly the kind and the comments of `r`. -/
-theorem ruleScheduleAt_some (ctx : Ctx) (r : Rule) (d : Day) (hc : Sorted r.comments) {s : Schedule}
+`d`, then `r` applies on `d` or on `d − 1`, the schedule is well-formed and coalesced, every range
+has the kind of `r` and (the comment list of `r` being sorted and duplicate-free) carries exactly the
+comments of `r`. -/
+theorem ruleScheduleAt_some (ctx : Ctx) (r : Rule) (d : Day) {s : Schedule}
     (h : ruleScheduleAt ctx r d = .ok (some s)) :
-    AppliesOn ctx r d ∧ WF s ∧ Coalesced s ∧ Uniform r.kind r.comments s := by
-  have F := fun rs => fromRanges_uniform rs r.kind r.comments hc
+    AppliesOn ctx r d ∧ WF s ∧ Coalesced s ∧ (∀ t ∈ s, t.kind = r.kind) ∧
+      (Sorted r.comments → AllComments r.comments s) := by
+  have F := fun rs (hc : Sorted r.comments) =>
+    fromRanges_comments rs r.kind r.comments (cunion_self hc)
+  have K := fun rs => fromRanges_kind rs r.kind r.comments
   have W := fun rs => fromRanges_wf rs r.kind r.comments
   have C := fun rs => fromRanges_coalesced rs r.kind r.comments
   unfold ruleScheduleAt at h
@@ -106,7 +102,7 @@ theorem ruleScheduleAt_some (ctx : Ctx) (r : Rule) (d : Day) (hc : Sorted r.comm
       simp only [bind, Except.bind, pure, Except.pure, Bool.false_eq_true, if_false, if_true,
         reduceCtorEq, Except.ok.injEq, Option.some.injEq] at h
     all_goals subst h
-    all_goals exact ⟨Or.inl rfl, W _, C _, F _⟩
+    all_goals exact ⟨Or.inl rfl, W _, C _, K _, F _⟩
   | some p =>
     rw [hp] at h
     have ep := pred?_eq hp
@@ -120,10 +116,11 @@ theorem ruleScheduleAt_some (ctx : Ctx) (r : Rule) (d : Day) (hc : Sorted r.comm
         reduceCtorEq, Except.ok.injEq, Option.some.injEq] at h
     all_goals subst h
     all_goals first
-      | exact ⟨Or.inl rfl, W _, C _, F _⟩
-      | exact ⟨Or.inr rfl, W _, C _, F _⟩
+      | exact ⟨Or.inl rfl, W _, C _, K _, F _⟩
+      | exact ⟨Or.inr rfl, W _, C _, K _, F _⟩
       | exact ⟨Or.inl rfl, addition_wf _ _ (W _) (W _), addition_coalesced _ _ (W _) (C _) (W _),
-          addition_uniform _ _ (W _) (W _) _ _ hc (F _) (F _)⟩
+          addition_kind _ _ (W _) (W _) _ (K _) (K _),
+          fun hc => addition_allComments _ _ _ hc (F _ hc) (F _ hc)⟩
 
 /-- a rule whose day selector matches neither `d` nor `d − 1` contributes nothing -/
 theorem ruleScheduleAt_noMatch (ctx : Ctx) (r : Rule) (d : Day) (h : NoMatch ctx r d) :
